@@ -8,3 +8,4 @@ open AcmedVerif.Props.C18
 #print axioms untrusted_endpoint_no_request
 #print axioms no_danger_calls
 #print axioms model_satisfies_spec
+#print axioms roots_added_in_one_place
